@@ -97,6 +97,12 @@ def run(ctx):
     plain = [h for h in hists if h[-1]["op"] not in ("Fork", "Conc")]
     forks = [h for h in hists if h[-1]["op"] == "Fork"]
     rng.shuffle(forks)
+    # forks that are not a line (a group names something else than the group before it) first
+    forks.sort(key=lambda h: 0 if any(p != 98 for p in h[-1]["pres"]) else 1)
+    bent = [h for h in forks if any(p != 98 for p in h[-1]["pres"])]
+    if not bent:
+        raise Inconclusive("TLC generated no fork switch with a bent branch")
+    forks = bent[:(300 if quick else 8000)] + [h for h in forks if not any(p != 98 for p in h[-1]["pres"])]
     rng.shuffle(concs)
     log("histories: %d plain, %d ending in a fork switch, %d ending in overlapping calls" % (len(plain), len(forks), len(concs)))
     hists = plain + (forks[:700] if quick else forks[:20000]) + (concs[:900] if quick else concs[:25000])
@@ -167,5 +173,6 @@ def run(ctx):
         "group fork switches are driven through hook export VerifGroupForkSwitch (triggerOnChain without the network, consensus checks stubbed)",
         "restart is initGroupChain re-run in-process over the same LevelDB instance (process death mid-write is explored only in the model; the statement quantifies over restarts after operations)",
         "sqlite group index is present as in production",
+        "lookups by height and id from six goroutines at once (no writer) after every third history, each answer compared with the single-goroutine answer taken just before",
         "overlapping calls: two AddGroup calls (or AddGroup and a removal) are both past the unlocked id check, inside consensusHelper.CheckGroup (the stub parks them), when the first one takes chain.lock; both release orders; finer schedules inside the locked sections do not exist (one mutex)",
     ])
